@@ -176,6 +176,15 @@ def run(prop, tier, seed):
         if model is not None and model[i] != rl:
             out.disagreements.append({"op": "cycle", "tag": tag, "hex": data.hex() if len(data) < 20000 else "(fixture) " + tag, "model": model[i][:120] + " ... " + model[i][-40:], "real": rl[:120] + " ... " + rl[-40:]})
         base = {"tag": tag, "hex": data.hex() if len(data) < 40000 else None, "fixture": tag if tag.startswith("fixture") else None}
+        if res is None and prop == "C10":
+            # the map does not cycle.  If it does once its unmodelled content (unknown / unsupported sections,
+            # unsupported trigger entries) is taken out, that content is what the layer chokes on: it did not survive
+            stripped = strip_unmodelled(data, spec)
+            if stripped != data and real_cycle(stripped)[1] is None:
+                non7 = any(n == b"STRx" and any(b >= 0x80 for b in p) for n, _, p in refchk.split_chunks(data))
+                out.violations.append(dict(base, oracle="unmodelled content passes through untouched and in place",
+                                           key="strx-non-7bit-byte-rejected" if (rl == "ERR unicode" and non7 and tag.startswith("witness")) else None,
+                                           diff="load/save raises (%s) on this map but succeeds once its unsupported sections / trigger entries are removed" % rl))
         if res is None:
             if tag.startswith(("editor", "fixture")) and prop in ("C02", "C03"):
                 key = "uprp-full-save-raises" if False else None
@@ -204,6 +213,24 @@ def run(prop, tier, seed):
                 out.violations.append(dict(base, oracle="every emitted CHK is structurally valid", problem=p, key=None))
     # de-duplicate violations by key so that every known finding is reported once per run
     return out
+
+
+def strip_unmodelled(data, spec):
+    lay = refchk.layouts_of(spec)
+    rf = refchk.ref_fields_of(spec)
+    rich = {b"MRGN", b"TRIG", b"UNIS", b"UNIx", b"UPRP", b"SWNM", b"WAV ", b"STR ", b"UPUS", b"VER "}
+    chunks = []
+    for n, _, p in refchk.split_chunks(data):
+        if n not in rich:
+            continue
+        if n == b"TRIG" and len(p) % lay[b"TRIG"]["trigSize"] == 0:
+            f = refchk.fields_of(lay[b"TRIG"], p)
+            for t in f["triggers"]:
+                for kind, part, idf in (("c", "conds", "_condition_id"), ("a", "acts", "_action_id")):
+                    t[part] = [({k: 0 for k in r} if (r[idf] != 0 and r[idf] not in rf[kind]) else r) for r in t[part]]
+            p = refchk.build(lay[b"TRIG"], f)
+        chunks.append((n, p))
+    return refchk.join_chunks(chunks)
 
 
 def first_diff(a, b):
@@ -243,6 +270,8 @@ def witness_maps(gen, spec):
     trig = {"conds": ([always, masked] + [zc] * 16)[:16], "acts": ([comment, za, za, victory] + [za] * 64)[:64], "execFlags": 0, "players": [1] + [0] * 26, "cur": 0}
     tp = refchk.build(L[b"TRIG"], {"triggers": [trig]})
     out.append(("witness:gap-and-eud-mask", replace(b"TRIG", lambda p: tp)))
+    # a recognised section without rich model (STRx) holding a string byte >= 0x80
+    out.append(("witness:strx-non-7bit", base + refchk.join_chunks([(b"STRx", struct.pack("<II", 1, 8) + b"\xe9t\xe9\x00")])))
     return out
 
 
